@@ -241,6 +241,6 @@ def run(chk, ctx):
     configs = ["default"] if ctx.tier == "quick" else ["default", "std", "fast_verify"]
     for name in configs:
         run_config(chk, ctx, name)
-    chk.floor("panic_sites", 15)
+    chk.floor("panic_sites", 10)
     chk.floor("threshold_partitions", 3)
     chk.floor("lifetime_multiplications", 1)
